@@ -80,13 +80,13 @@ func ZZ_C04_Screen() {
 	script.OnWait = func() {
 		switch wait {
 		case 0:
-			rl.line.Set(b1...)
+			rl.line.Set(zzCopy(b1)...)
 			rl.cursor.Set(p1)
 			script.Chunks = [][]byte{{0x00}, {0x00}} // set-mark: a command that changes nothing
 		case 1:
 			zzverif.Reach("frame1")
 			check(b1, p1, "first-frame")
-			rl.line.Set(b2...)
+			rl.line.Set(zzCopy(b2)...)
 			rl.cursor.Set(p2)
 		case 2:
 			zzverif.Reach("frame2")
